@@ -27,3 +27,10 @@ impl DynRule {
 pub assume_specification<T> [<[T] as std::borrow::ToOwned>::to_owned] (s: &[T]) -> (r: std::vec::Vec<T>)
     where T: std::clone::Clone
     ensures r@ == s@;
+
+// R14: Extend<T> for Vec<T> appends the items of the argument in order
+#[verifier::external_body]
+pub fn __vec_extend<T>(v: &mut Vec<T>, it: Vec<T>)
+    ensures final(v)@ == old(v)@ + it@
+{ v.extend(it) }
+
